@@ -596,7 +596,7 @@ class SysRun(object):
             # (shutdown() is only ever called while serve_forever() runs: calling it otherwise is a documented misuse of
             # socketserver, which leaves the shutdown request pending for the next serve_forever())
             life = "serve"
-        if is_net and life in ("serve", "shutdown-inflight"):
+        if is_net and life in ("serve", "shutdown-inflight", "close-while-serving"):
             serve_thread = s.spawn(lambda: srv.serve_forever(0.5), "serve_forever", "server")
         elif is_net and life == "handle-loop":
             nreq = p.get("handle_count", 0)
@@ -610,7 +610,16 @@ class SysRun(object):
         if life != "never-served":
             for ci in range(len(p["clients"])):
                 clients.append(s.spawn(lambda ci=ci: self.client_body(ci), "client%d" % ci, "client"))
-        if life == "shutdown-inflight":
+        if life == "close-while-serving":
+            # server_close() alone on a serving pooled server (it shuts the loop down itself), while clients still connect
+            s.sleep(p.get("shutdown_at", 1.0))
+            s.emit("inflight.shutdown")
+            closer = s.spawn(lambda: self.lifecycle_op("server_close", srv.server_close), "closer", "harness")
+            s.sleep(p.get("open_after", 2.0))
+            self.open_gates()
+            self.wait_threads([closer])
+            self.wait_threads(clients)
+        elif life == "shutdown-inflight":
             # stop while requests are in flight; they complete once the gates open
             s.sleep(p.get("shutdown_at", 1.0))
             s.emit("inflight.shutdown")
@@ -792,6 +801,9 @@ def _plain(x):
 
 
 def execute(program, decider, chooser=None, step_cap=120000):
+    if program.get("cold"):
+        # this run starts from freshly imported modules (as the first request ever served by a process)
+        env.cold_start()
     s = core.Sched(decider, step_cap=step_cap, horizon=FAR * 8 + 2048, chooser=chooser)
     run = SysRun(program, s)
     verdict = s.run(run.root)
